@@ -51,9 +51,10 @@ def inherit(mycfg, basecfg, subst=None):
 
 
 def generate(ctx, nprog, ndst, depth, seed, blobs):
-    subst = {"Ops": pithos.tla_set(OPS), "GenDepth": str(depth), "NDst": str(ndst), "Blobs": pithos.tla_set(blobs)}
+    subst = {"Ops": pithos.tla_set(OPS), "GenDepth": str(depth), "NDst": str(ndst), "Blobs": pithos.tla_set(blobs),
+             "Deviations": ctx.deviations(props=pithos.PROPS)}
     r = ctx.tlc("MigrateGen", "Migrate.Gen.cfg", workers=1, simulate="num=%d" % nprog, depth=depth + 1, seed=seed,
-                timeout=900, count_mc=False, subst=inherit("Migrate.Gen.cfg", "Pithos.Gen.cfg", subst))
+                timeout=900, count_mc=False, subst=inherit("Migrate.Gen.cfg", "Pithos.MCver.cfg", subst))
     progs = [p for p in r.printed if isinstance(p, dict) and "calls" in p]
     ctx.log("GEN: %d programs, %.1fs" % (len(progs), r.wall))
     if len(progs) < nprog:
@@ -73,24 +74,31 @@ def split_programs(lines):
     return out
 
 
+def copy_line(group):
+    """Index of a Migrate line of the group that succeeded and copied at least one object (-1: none)."""
+    for i, v in enumerate(group):
+        if v["call"]["op"] == "Migrate" and v["err"] == "" and any(k["versions"] for b in v["views_dst"] for k in b["keys"]):
+            return i
+    return -1
+
+
 def falsified(group):
-    """Binding self-test input: copy of a program's trace in which one migrated object's tag set / content type in the
-    logged destination views of the last Migrate line is altered."""
+    """Binding self-test input: copy of a program's trace in which one migrated object's tag set in the logged
+    destination views of a successful Migrate line is altered.  Returns (trace, variant falsified)."""
     g = json.loads(json.dumps(group))
     for ln in g:
         ln["prog"] = 999999
-    v = g[-1]
+    v = g[copy_line(g)]
     for b in v["views_dst"]:
         for k in b["keys"]:
             for ver in k["versions"]:
                 ver["tags"] = "g1" if ver["tags"] != "g1" else "g2"
-                return g
-    return None
+                return g, v["variant"]
+    return None, 0
 
 
 def has_copy(group):
-    v = group[-1]
-    return v["call"]["op"] == "Migrate" and v["err"] == "" and any(k["versions"] for b in v["views_dst"] for k in b["keys"])
+    return copy_line(group) >= 0
 
 
 def validate(ctx, groups, cfg):
@@ -158,6 +166,7 @@ def coverage(ctx, records, dropped):
         "with_glacier": sum(1 for r in ok if r["facts"]["glacier"]),
         "with_multipart_source": sum(1 for r in ok if r["facts"]["multipart"]),
         "with_big_blob": sum(1 for r in ok if r["facts"]["big"]),
+        "with_6MiB_blob_uploader_multipart_path": sum(1 for r in ok if r["facts"]["big"] and r.get("bigrun")),
         "with_empty_object": sum(1 for r in ok if r["facts"]["empty"]),
         "with_noncurrent_versions": sum(1 for r in ok if r["facts"]["noncurrent"]),
         "with_delete_marker": sum(1 for r in ok if r["facts"]["marker"]),
@@ -174,6 +183,8 @@ def coverage(ctx, records, dropped):
         cov["explained_by"][key] = cov["explained_by"].get(key, 0) + 1
     need = ["migrations_with_objects", "refused_nonempty", "with_glacier", "with_multipart_source", "with_big_blob",
             "with_redirect", "two_source_buckets", "with_noncurrent_versions", "with_delete_marker", "with_empty_object"]
+    if not ctx.quick():
+        need.append("with_6MiB_blob_uploader_multipart_path")
     missing = [k for k in need if cov[k] == 0]
     missing += [k for k, v in cov["dst_kinds"].items() if v == 0]
     # every metadata / tag / content-type class must have been migrated at least once
@@ -201,10 +212,10 @@ def run(ctx):
     ndst = ctx.pick(4, 5)
     # (label, source stack, destination stack, number of programs, blob alphabet, c5 = 6 MiB)
     plan = ctx.pick([("a", "sql", "fs", 12, ["c0", "c1", "c3", "c5"], False)],
-                    [("a", "sql", "fs", 40, ["c0", "c1", "c2", "c3", "c4", "c5"], False),
-                     ("b", "classes", "sql", 30, ["c0", "c1", "c3", "c4", "c5"], False),
-                     ("c", "fs", "classes", 20, ["c0", "c1", "c3", "c5"], False),
-                     ("big", "fs", "sql", 8, ["c1", "c3", "c5"], True)])
+                    [("a", "sql", "fs", 90, ["c0", "c1", "c2", "c3", "c4", "c5"], False),
+                     ("b", "classes", "sql", 60, ["c0", "c1", "c3", "c4", "c5"], False),
+                     ("c", "fs", "classes", 40, ["c0", "c1", "c3", "c5"], False),
+                     ("big", "fs", "sql", 14, ["c1", "c3", "c5"], True)])
     records, dropped, ngroups, pid = [], [], 0, 0
     todo = [(i, e, ctx.seed * 10 + i) for i, e in enumerate(plan)]
     extra_batches = 0
@@ -223,18 +234,20 @@ def run(ctx):
         extra = []
         if first:
             st = [g for g in groups if has_copy(g)]
-            fg = falsified(st[0]) if st else None
+            fg, fvar = falsified(st[0]) if st else (None, 0)
             extra = [fg] if fg else []      # none: judged after the verdicts (broken code is a verdict, not infra)
         recs, drp = validate(ctx, groups + extra, "Migrate.TraceBig.cfg" if big else "Migrate.Trace.cfg")
         if first and extra:
             fake = [r for r in recs if r["prog"] == 999999]
             recs = [r for r in recs if r["prog"] != 999999]
-            orig = [r["verdict"] for r in recs if r["prog"] == st[0][0]["prog"]]
-            if not fake or fake[-1]["verdict"] != "mismatch" or [r["verdict"] for r in fake[:-1]] != orig[:-1]:
+            orig = {r["variant"]: r["verdict"] for r in recs if r["prog"] == st[0][0]["prog"]}
+            got = {r["variant"]: r["verdict"] for r in fake}
+            if got.get(fvar) != "mismatch" or any(got.get(v) != orig[v] for v in orig if v != fvar):
                 raise vlib.Infra("binding self-test failed: a falsified destination view was not (exactly) rejected: %s vs %s" %
-                                 ([r["verdict"] for r in fake], orig))
+                                 (got, orig))
             ctx.extra["binding_selftest"] = "altered tag set in the logged destination of program %s rejected" % st[0][0]["prog"]
         for r in recs:
+            r["bigrun"] = big
             r["stacks"] = "%s->%s" % (src, dst)
             r["group"] = next(g for g in groups if g[0]["prog"] == r["prog"])
         records += recs
